@@ -599,6 +599,10 @@ func vfC17Scenarios(thorough bool) []*vfGWScenario {
 	}
 	mk("window", []string{"pub:b:m1", "pub:c:m2", "pub:b:m3", "lpub:t:p1", "hb", "iwant:a:m1", "iwant:d:m1", "iwant:a:m1+m2", "score:a:-1.5", "score:a:-1", "idw:a:m1"})
 	mk("ihave-caps", []string{"ihave:a:t:m1", "ihave:a:t:m2+m3", "ihave:a:t:m1+m2+m3", "ihave:d:t:m5", "ihave:a:t:m6", "pub:b:m1", "hb", "score:a:-1.5", "score:a:-1", "leave:t"})
+	// the budget of requested IDs is per peer and heartbeat, across as many IHAVEs as are honoured
+	mk("ihave-budget", []string{"ihave:a:t:m1", "ihave:a:t:m2", "ihave:a:t:m3", "ihave:a:t:m5", "ihave:a:t:m5+m6", "ihave:d:t:m6", "hb"})
+	out[len(out)-1].Cfg.Params = "d2ih"
+	out[len(out)-1].Depth = d + 1
 	mk("idontwant", []string{"idw:b:m1", "idw:b:m2", "idw:b:m1+m2+m3", "idw:a:m3", "pub:c:m1", "pub:c:s1", "pub:a:m2", "hb", "prune:b:t", "graft:a:t"})
 	mk("promises", []string{"ihave:a:t:m1", "ihave:d:t:m1", "ihave:a:t:m2+m3", "pub:b:m1", "pub:a:m2", "hb", "adv:2100", "adv:900"})
 	// the promised message arrives in time but sits in (gated) validation across the follow-up deadline
